@@ -66,10 +66,16 @@ func pickValue(r *rng.R) DVal {
 }
 
 func genNode(r *rng.R, ns uint16, hist, i int) NodeJ {
+	// node ids of every kind (the namespace keys its nodes by NodeID.String(), and so does the model)
 	var idn *ua.NodeID
-	if r.Bool() {
+	switch r.Intn(6) {
+	case 0, 1:
 		idn = ua.NewStringNodeID(ns, fmt.Sprintf("h%d_n%d", hist, i))
-	} else {
+	case 2:
+		idn = ua.NewGUIDNodeID(ns, fmt.Sprintf("%08X-0000-4000-8000-%012X", hist, i))
+	case 3:
+		idn = ua.NewByteStringNodeID(ns, []byte{byte(hist >> 8), byte(hist), 0xfe, byte(i)})
+	default:
 		idn = ua.NewNumericNodeID(ns, uint32(1000000+hist*100+i))
 	}
 	nj := NodeJ{ID: nidOf(idn)}
